@@ -69,6 +69,10 @@
 //	checkValidNetmask(m)                             Plug.netmask.checkValid m   (the model's; its own tie is unit `netmask`)
 //	strconv.Atoi(a)                                  a.int   (none = err != nil)
 //	time.ParseDuration(a)                            a.dur   (nanoseconds; none = err != nil)
+//	n <op> k, n an int / time.Duration variable      n <op> k  (Int)  — the range tests of mtu, lease_time, ipv6only
+//	math.MaxUint16 · math.MaxUint32 · time.Second    65535 · 4294967295 · 1000000000   (stated facts about the standard library:
+//	                                                 1<<16 - 1, 1<<32 - 1, the nanoseconds of one second)
+//	c * d, both constants                            c * d   (a product that is not evaluated: the factors stay visible)
 //	net.ParseMAC(a)                                  a.mac   (none = err != nil)
 //	v, err := f(a); if err != nil {A}; B             match a.<oracle> with | none => A | some v => B
 //	strings.Split(a, ","), a an argument             a.sr : Plug.SrOracle;  len(fields) ↦ f.fields
@@ -104,7 +108,8 @@
 //	an error of the standard library passed on       Err.lib "<function>"
 //	log.<Level>(…)                                   nothing — only as a statement, only on the package's
 //	   `log = logger.GetLogger(…)`, Level ∈ Print Info Warning Warn Error Debug (+f), and only if every argument is
-//	   free of side effects: literals, variables, fields, args[i] (i in range), len(x), x.String(), fmt.Sprintf(…)
+//	   free of side effects: literals, variables, fields, args[i] (i in range), len(x), x.String(), fmt.Sprintf(…),
+//	   a conversion to a builtin integer type
 //
 // Go names of locals never reach the generated text (Lean names = kind + number along the path): renaming a
 // local, reformatting, or moving a log statement regenerates the same file.
@@ -185,7 +190,18 @@ var s11pkgs = map[string]string{
 	"iana": "github.com/insomniacslk/dhcp/iana", "logger": "github.com/coredhcp/coredhcp/logger",
 	"handler": "github.com/coredhcp/coredhcp/handler",
 	"net":     "net", "url": "net/url", "time": "time", "fmt": "fmt", "errors": "errors", "strconv": "strconv", "strings": "strings",
+	"math": "math",
 }
+
+// numeric constants of the standard library (FIXED VOCABULARY: stated facts, not read from GOROOT); kind durconst = a time.Duration
+var s11stdConsts = map[string]sv{
+	"math.MaxUint16": {kind: "num", lean: "65535"},
+	"math.MaxUint32": {kind: "num", lean: "4294967295"},
+	"time.Second":    {kind: "durconst", lean: "1000000000"},
+}
+
+// conversions to builtin integer types: free of side effects (arguments of a log call or an error constructor only)
+var s11intConvs = set("int", "int32", "int64", "uint", "uint16", "uint32", "uint64")
 
 var s11builtins = set("nil", "true", "false", "len", "cap", "make", "append", "copy", "new", "panic", "delete", "error", "string", "int", "byte", "bool")
 
@@ -488,6 +504,13 @@ func (u *s11) val(x ast.Expr, st *sst) sv {
 			}
 			u.fail(x, "net.%s is not in the vocabulary", n)
 		}
+		for _, pkg := range []string{"math", "time"} {
+			if n, ok := u.pkgSel(x, pkg, st); ok {
+				c, ok := s11stdConsts[pkg+"."+n]
+				u.must(ok, x, "%s.%s is not in the vocabulary (math.MaxUint16, math.MaxUint32, time.Second)", pkg, n)
+				return c
+			}
+		}
 		if n, ok := u.pkgSel(x, "iana", st); ok {
 			u.must(n == "HWTypeEthernet", x, "iana.%s is not in the vocabulary", n)
 			return sv{kind: "hwtype"}
@@ -540,6 +563,17 @@ func (u *s11) val(x ast.Expr, st *sst) sv {
 			}
 		}
 		u.fail(x, "unsupported operand of &")
+	case *ast.BinaryExpr: // a product of constants, e.g. math.MaxUint32*time.Second
+		u.must(x.Op == token.MUL, x, "unsupported operator %s (only a product of constants)", x.Op)
+		a, b := u.val(x.X, st), u.val(x.Y, st)
+		isC := func(v sv) bool { return v.kind == "num" || v.kind == "durconst" }
+		u.must(isC(a) && isC(b), x, "product of something that is not a constant")
+		u.must(!(a.kind == "durconst" && b.kind == "durconst"), x, "product of two durations")
+		k := "num"
+		if a.kind == "durconst" || b.kind == "durconst" {
+			k = "durconst"
+		}
+		return sv{kind: k, lean: s11atom(a.lean) + " * " + s11atom(b.lean)}
 	case *ast.CallExpr:
 		return u.call(x, st)
 	}
@@ -725,7 +759,10 @@ func (u *s11) num(x ast.Expr, st *sst) (lean string, maskLen, isConst bool) {
 		u.fail(x, "len of a %s", v.kind)
 	}
 	v := u.val(x, st)
-	u.must(v.kind == "num", x, "not a number of the vocabulary (integer literal, net.IPv4len, len(…))")
+	if v.kind == "int" || v.kind == "dur" { // a parsed number / duration (nanoseconds), Int
+		return s11atom(v.lean), false, false
+	}
+	u.must(v.kind == "num" || v.kind == "durconst", x, "not a number of the vocabulary (integer literal, net.IPv4len, len(…), math.MaxUint16/32, time.Second, a product of these, an int or time.Duration variable)")
 	return v.lean, false, true
 }
 
@@ -887,8 +924,9 @@ func (u *s11) pure(x ast.Expr, st *sst) {
 		} else if _, ok := u.builtin(x, "len", st); ok {
 		} else if recv, name, _, ok := u.method(x); ok && name == "String" && len(x.Args) == 0 {
 			u.pure(recv, st)
+		} else if id, ok := x.Fun.(*ast.Ident); ok && s11intConvs[id.Name] && !u.named(id.Name, st) && len(x.Args) == 1 && !x.Ellipsis.IsValid() {
 		} else {
-			u.fail(x, "call that is not known to be free of side effects (only fmt.Sprintf, len, x.String())")
+			u.fail(x, "call that is not known to be free of side effects (only fmt.Sprintf, len, x.String(), a conversion to a builtin integer type)")
 		}
 		for _, a := range x.Args {
 			u.pure(a, st)
@@ -998,7 +1036,7 @@ func (u *s11) store(lhs ast.Expr, define bool, v sv, st *sst) []string {
 		}
 		if define {
 			u.freshName(l, st)
-			u.must(v.kind != "args" && v.kind != "nil" && v.kind != "num", lhs, "unsupported value for a new variable (%s)", v.kind)
+			u.must(v.kind != "args" && v.kind != "nil" && v.kind != "num" && v.kind != "durconst", lhs, "unsupported value for a new variable (%s)", v.kind)
 			v, lines := u.bind(v)
 			st.vars[l.Name] = v
 			return lines
